@@ -200,7 +200,37 @@ def c16(tier, seed):
         'dependency callbacks repaint the stack below their frames; residue inside the dependencies (utf8proc heap, KDF) is outside the library',
         'single word indices (11 bits) are not searched, only adjacent pairs; secrets are searched as 8-byte windows'])
 
-CHECKS = {'C16': c16, 'C19': c19, 'C09': c09, 'C14': c14, 'C10': c10, 'C12': c12, 'C13': c13, 'C15': c15, 'C18': c18, 'C01': c01, 'C02': c02, 'C03': c03, 'C04': c04, 'C05': c05, 'C06': c06, 'C07': c07, 'C08': c08, 'C11': c11, 'C17': c17}
+def c20(tier, seed):
+    runs = [Run('e3_sched', 'tsanrt', ['only', str(h)], label='e3_sched[tsanrt] H%d' % h) for h in (3, 2, 1)]
+    runs.append(Run('e3_free', 'tsan', [], label='e3_free[tsan] free-running ThreadSanitizer pass'))
+    def cov(results):
+        c = {'e3': {}}
+        for r, res in results:
+            for k, v in res.items():
+                if k.startswith('e3_'):
+                    c['e3'][k[3:]] = v
+        ex = sum(v for k, v in c['e3'].items() if k.endswith('_executions'))
+        c['executions'] = ex
+        c['complete_without_preemption_bound'] = all(v == 1 for k, v in c['e3'].items() if k.endswith('_complete'))
+        d = build.lib_dir('tsanrt')
+        c['writable_library_data'] = [l.split()[-1] + ':' + l.split()[1] for l in open(d + '/symbols.txt') if len(l.split()) == 4 and l.split()[2] in 'dDbB']
+        return c
+    def post(results):
+        out = []
+        for r, res in results:
+            if r.prog == 'e3_free' and 'ThreadSanitizer' in res.get('_stderr', ''):
+                out.append({'key': 'c20:tsan-report', 'replay': '', 'msg': 'ThreadSanitizer reported a data race in the free-running pass: ' + res['_stderr'][:1200]})
+        return out
+    def kf(k):
+        if k.startswith('program-exit:e3_free'):
+            return True
+        return pref('c20:', 'harness:')(k)
+    return check('C20', tier, seed, runs, keyfilter=kf, extra_cov=cov, post=post, parallel=True, assumptions=ASSUME_COMMON + [
+        'sequentially consistent interleavings at the granularity of individual accesses to the library writable static data (sections ps_data/ps_bss); for race-free code that is all there is, and race freedom itself is decided by the exact race oracle',
+        'three harnesses: 2 threads x 4-6 calls, 3 threads x 2-3 calls, on distinct seeds with colliding language/coin; injection and feature configuration happen before the threads start',
+        'language tables are pure read-only data and are not instrumented; libc helpers are covered by the separate free-running ThreadSanitizer pass'])
+
+CHECKS = {'C20': c20, 'C16': c16, 'C19': c19, 'C09': c09, 'C14': c14, 'C10': c10, 'C12': c12, 'C13': c13, 'C15': c15, 'C18': c18, 'C01': c01, 'C02': c02, 'C03': c03, 'C04': c04, 'C05': c05, 'C06': c06, 'C07': c07, 'C08': c08, 'C11': c11, 'C17': c17}
 
 def setup():
     for m in ('plain', 'asan'):
@@ -212,8 +242,10 @@ def setup():
 
 SETUP_PROGS = [('e2_phrase', ['asan']), ('e2_gf', ['plain', 'asan']), ('e2_kdf', ['plain', 'asan']), ('e2_coin', ['asan']),
                ('e2_storage', ['asan']), ('e2_words', ['asan']), ('e2_prefix', ['asan']), ('e2_birthday', ['asan']), ('e2_maxlen', ['asan']),
-               ('e1_bfs', ['asan']), ('e2_crypt', ['asan']), ('e2_tape', ['asan']), ('e2_fault', ['asan']), ('e2_detect', ['asan']), ('e2_strings', ['asan', 'dbg']), ('e4_residue', ['gcc-O2', 'gcc-O0'])]
+               ('e1_bfs', ['asan']), ('e2_crypt', ['asan']), ('e2_tape', ['asan']), ('e2_fault', ['asan']), ('e2_detect', ['asan']), ('e2_strings', ['asan', 'dbg']), ('e4_residue', ['gcc-O2', 'gcc-O0']), ('e3_sched', ['tsanrt']), ('e3_free', ['tsan'])]
 ENGINES = [
+ {'name': 'E3', 'path': 'harness/e3_sched.c, harness/e3_scripts.h, harness/e3_free.c', 'serves_properties': ['C20'],
+  'kind_free_text': 'stateless model checking of thread interleavings: the library is compiled with -fsanitize=thread and linked against the harness own __tsan_* callbacks; real pthreads under a baton scheduler, scheduling point at every access to the library writable static data, DFS over choice prefixes with a visited-state cache (complete, no preemption bound needed on the unchanged tree), race and serial-equivalence oracles; plus a separate free-running real-TSan pass'},
  {'name': 'E4', 'path': 'harness/e4_residue.c', 'serves_properties': ['C16'],
   'kind_free_text': 'exhaustive enumeration of (API function, exit path) cells x compiler/optimisation builds on a dedicated painted stack, followed by a full scan of the dead stack and the library static data for secret needles; zero-at-free and memzero-before-free at every release'},
  {'name': 'E5', 'path': 'lib/checks.py:c19 + harness/e2_*.c, e1_bfs.c', 'serves_properties': ['C19'],
@@ -232,6 +264,9 @@ META = {
  'C03': dict(engine='E2', design_ref='DESIGN.md section 5 C03', technique='exhaustive enumeration of seed factors, byte comparison of every emitted phrase with an independent reference encoder',
    text='Same enumeration as C01 with a different oracle: every phrase emitted by polyseed_encode must be byte-identical to the phrase computed by the reference model (README bit layout, golden word lists, coin XOR, separator, NFC), the stored check value must equal the reference GF(2048) value, and re-encoding after unrelated operations must give the same bytes. A bit-linear packing is pinned by the single-bit seeds and their pairs, which are enumerated completely.',
    note='Trusted: ' + TB + '.'),
+ 'C20': dict(engine='E3', design_ref='DESIGN.md section 5 C20', technique='stateless exploration of all thread interleavings under a controlled scheduler (custom __tsan_* runtime, state caching), race + serial-equivalence oracles',
+   text='All interleavings of three multi-threaded harnesses (create/encode/decode/free; load/crypt/keygen/encode/decode_explicit/free; 3 threads with colliding language and coin) at the granularity of single accesses to the library writable static data are executed on the real library (2 555 + 4 164 + 30 688 states on the unchanged tree, complete without a preemption bound). Every execution is checked for a write/any-access pair by different threads on a shared byte, for accesses to another thread seed memory, and for per-thread transcripts equal to a serial run. A free-running pass of the same bodies under real ThreadSanitizer keeps uninstrumented libc helpers visible.',
+   note='Trusted: ' + TB + ', gcc -fsanitize=thread instrumentation, pthreads/semaphores. Sequential consistency; 2-3 threads; a state cap switches to iterative preemption bounding and is reported.'),
  'C16': dict(engine='E4', design_ref='DESIGN.md section 5 C16', technique='enumeration of every API function x exit path x compiler build on a painted stack with full residue scan; wipe-before-free checked on every free of the E1 state space',
    text='Each of 60 (function, exit) cells - create OK/unsupported/memory, load OK/memory/5 format causes/checksum/unsupported, both decoders x OK/word count/language/checksum/memory/unsupported x 3 languages, multiple languages, encode in composing and plain languages, crypt with ASCII and non-ASCII password, keygen, store, getters, free - is executed on a dedicated 256 KiB stack painted 0xA5; afterwards the complete dead stack and the library writable sections are searched for the secret bytes, the encrypted secret, the mask, the password (raw, NFKD), every phrase word and adjacent word-index pairs (u16/u32/u64). At every free the block must be zero and covered by an earlier injected memzero. Repeated for each compiler build.',
    note='Trusted: ' + TB + ', makecontext. Sees what these compilers leave behind on x86-64.'),
